@@ -34,6 +34,7 @@ type SSHInput struct {
 	// HalfClose: the client ends its direction (EOF) after its data; the backend writes its
 	// reply only once it has seen that end (after DelayMs more), then closes the channel
 	HalfClose bool `json:"half_close,omitempty"`
+	Shared    bool `json:"shared_port,omitempty"` // the proxy's port is shared with a detector service listed before it
 	DelayMs   int  `json:"delay_ms,omitempty"`
 }
 
@@ -260,7 +261,11 @@ func (e *env) runSSH(in SSHInput, seq int) (SSHObs, string) {
 		hx.Fatal("tcp pair: %v", err)
 	}
 	remote := &net.TCPAddr{IP: net.ParseIP("198.51.100.9"), Port: 30000 + seq}
-	srv := &addrConn{Conn: sc, L: &net.TCPAddr{IP: net.ParseIP("127.0.0.1"), Port: 22}, R: remote, closed: make(chan struct{})}
+	lport := 22
+	if in.Shared {
+		lport = 2222
+	}
+	srv := &addrConn{Conn: sc, L: &net.TCPAddr{IP: net.ParseIP("127.0.0.1"), Port: lport}, R: remote, closed: make(chan struct{})}
 	if !inject(srv) {
 		return ob, "server does not accept"
 	}
@@ -473,6 +478,7 @@ func genSSHInputs(o hx.Opts, r *hx.Rand) []SSHInput {
 		for _, k := range randCuts(r, r.PickInt([]int{0, 1, 10, 100, 1000, 40000, 65536})) {
 			in.Reply = append(in.Reply, hx.B(mk(k)))
 		}
+		in.Shared = r.Chance(1, 3)
 		if r.Chance(1, 4) {
 			in.HalfClose = true
 			in.DelayMs = r.PickInt([]int{0, 0, 20, 50})
@@ -543,6 +549,9 @@ func runSSHPart(o hx.Opts, r *hx.Rand, e *env, replay *Input) {
 		}
 		if in.HalfClose {
 			dist["client-half-close"]++
+		}
+		if in.Shared {
+			dist["shared-port"]++
 		}
 		dist["data:"+sizeClass(len(concatB(in.Data)))]++
 		dist["reply:"+sizeClass(len(concatB(in.Reply)))]++
